@@ -30,7 +30,7 @@ import numpy as np
 from . import build
 
 VERIF = build.VERIF
-EVIDENCE_DIR = os.path.join(VERIF, 'evidence')
+EVIDENCE_DIR = os.environ.get('VERIF_EVIDENCE_DIR') or os.path.join(VERIF, 'evidence')
 REPLAY_DIR = os.path.join(VERIF, 'replays')
 KNOWN = os.path.join(VERIF, 'known_findings.json')
 
@@ -220,7 +220,7 @@ def make_pool(mod, tier, seed, nproc):
 def run_property(pid, tier='quick', seed=0, replay_file=None, nproc=None):
     t0 = time.time()
     mod = importlib.import_module('vf.props.' + pid.lower())
-    build.ensure_built()
+    build.ensure_built(prune=(build.REPO == '/repo' and not os.environ.get('VERIF_EVIDENCE_DIR')))
     nproc = nproc or int(os.environ.get('VERIF_NPROC', '16'))
     os.makedirs(EVIDENCE_DIR, exist_ok=True)
     os.makedirs(REPLAY_DIR, exist_ok=True)
@@ -228,7 +228,11 @@ def run_property(pid, tier='quick', seed=0, replay_file=None, nproc=None):
     if replay_file:
         with open(replay_file) as f:
             rp = json.load(f)
-        items = [(0, 'replay', rp['case'])]
+        if isinstance(rp['case'], dict) and '__shard__' in rp['case']:
+            sh = rp['case']['__shard__']
+            items = [(0, 'shard', tuple(sh) if isinstance(sh, list) else sh)]
+        else:
+            items = [(0, 'replay', rp['case'])]
         shards = []
     else:
         shards = list(mod.shards(tier, seed))
@@ -272,8 +276,13 @@ def run_property(pid, tier='quick', seed=0, replay_file=None, nproc=None):
             st_chunks.append(r['states'])
             nt_chunks.append(r['nontrivial'])
 
-        # ---- confirm every violation class deterministically (twice, fresh calls)
+        # ---- confirm every violation class deterministically
+        # (1) replay the single case twice in a worker; (2) if it does not reproduce in isolation the failure may
+        # depend on the calls made before it (module-level caches, stale scratch state): replay the whole shard -
+        # the exact call history - twice, each time in a brand-new process; only then is it reported, as
+        # "history-dependent", with the shard as its replayable artefact.
         confirmed = {}
+        unconfirmed = []
         harness_err = list(errors)
         if not replay_file:
             for sig, v in sorted(merged['viol'].items()):
@@ -282,15 +291,31 @@ def run_property(pid, tier='quick', seed=0, replay_file=None, nproc=None):
                     rr = pool.apply(_worker_run, ((0, 'replay', v['case']),))
                     outs.append(rr)
                 sigs = [set(o['viol']) for o in outs]
-                if any(o['err'] for o in outs):
-                    harness_err.append((sig, 'replay raised: ' + str([o['err'] for o in outs])))
-                elif not (sig in sigs[0] and sig in sigs[1]):
-                    harness_err.append((sig, 'violation did not reproduce on replay '
-                                             '(nondeterminism): %r %r' % (sigs, v['case'])))
-                else:
+                if not any(o['err'] for o in outs) and sig in sigs[0] and sig in sigs[1]:
                     confirmed[sig] = v
+                    continue
+                shard_idx = v['key'][0]
+                hits = 0
+                for rep in range(2):
+                    fresh = make_pool(mod, tier, seed, 1)
+                    try:
+                        rr = fresh.apply(_worker_run, ((shard_idx, 'shard', shards[shard_idx]),))
+                    finally:
+                        fresh.terminate()
+                        fresh.join()
+                    hits += int(sig in rr['viol'])
+                if hits == 2:
+                    confirmed[sig] = dict(v, case={'__shard__': jsonable(shards[shard_idx]), 'failing_case': v['case']},
+                                          msg='[history-dependent: does not fail in isolation, fails every time the call '
+                                              'history of its shard is replayed from a fresh process] ' + v['msg'])
+                else:
+                    unconfirmed.append((sig, 'violation reproduced neither in isolation (%r) nor by replaying its shard '
+                                             'from a fresh process (%d/2): %r' % (sigs, hits, v['case'])))
+            if unconfirmed and not confirmed:
+                harness_err.extend(unconfirmed)
         else:
             confirmed = merged['viol']
+            unconfirmed = []
     finally:
         pool.terminate()
         pool.join()
@@ -372,6 +397,9 @@ def run_property(pid, tier='quick', seed=0, replay_file=None, nproc=None):
         print('VIOLATION property=%s replay=%s' % (pid, replay_paths[sig]))
         print('  signature: %s (%d cases)' % (sig, merged['viol_counts'][sig]))
         print('  ' + v['msg'].replace('\n', '\n  ')[:1500])
+    for sig, why in (unconfirmed if not replay_file else []):
+        if confirmed:
+            print('UNCONFIRMED %s: %s' % (sig, why[:600]), file=sys.stderr)
     summ = ('%s tier=%s seed=%d: states=%d transitions=%d evaluations=%d nontrivial=%d '
             'shards=%d/%d wall=%.1fs%s' % (
                 pid, tier, seed, states, merged['transitions'], merged['evaluations'], nontriv,
